@@ -669,4 +669,107 @@ theorem findAllFs_heap_frame_aux (K : Consts) (ts : TypeSystem) (o : Opts) (hp :
       ob'.slots = ob.slots ∧ (ob.xid ≠ none → ob'.xid = ob.xid) :=
   (findAllFs_inv K ts o hp nx seeds s' h).1.shape
 
+/-! ### kernel evaluation of concrete instances
+
+`createFeature` pushes a new feature down the `_children` links with `pushInherited`, which is defined
+by well-founded recursion and therefore does not reduce in the kernel.  On a childless domain type the
+push-down is the identity; `createFeatureLeaf` is `createFeature` without it, and evaluates by `decide`. -/
+
+theorem pushInherited_nil (f : Feature) (n : Nat) (ts : TypeSystem) :
+    pushInherited f (n + 1) ts [] = .ok ts := by
+  rw [pushInherited]
+  intro h; cases h
+
+theorem addFeature_leaf {ts : TypeSystem} {d : String} {f : Feature} {t : TypeRec}
+    (hf : find? ts d = some t) (hch : t.children = []) :
+    addFeature ts d f =
+      (match addCheck t f false with
+       | .conflict => .error .valueError
+       | .same => .ok ts
+       | .fresh =>
+         if descendantConflict ts d f then .error .valueError
+         else .ok (setRec ts { t with own := t.own ++ [f] })) := by
+  unfold addFeature
+  rw [hf]
+  obtain ⟨tn, tsup, tdescr, tch, town, tinh⟩ := t
+  simp only at hch
+  subst hch
+  simp only [pushInherited_nil]
+  cases addCheck { name := tn, super := tsup, descr := tdescr, own := town, inh := tinh } f false <;> rfl
+
+/-- `createFeature` (without element type, description, multiple-references flag) on a childless
+    domain type: no push-down to descendants -/
+def createFeatureLeaf (ts : TypeSystem) (domain name range : String) : R TypeSystem := do
+  let reserved := name == "self" || name == "type"
+  let name' := if reserved then name ++ "_" else name
+  let d ← getType ts domain
+  let r ← getType ts range
+  let f : Feature := { name := name', domain := d.name, range := r.name, elem := none, descr := none,
+                       multi := none, reserved := reserved }
+  match find? ts d.name with
+  | none => .error .typeNotFound
+  | some t =>
+    match addCheck t f false with
+    | .conflict => .error .valueError
+    | .same => .ok ts
+    | .fresh =>
+      if descendantConflict ts d.name f then .error .valueError
+      else .ok (setRec ts { t with own := t.own ++ [f] })
+
+/-- decidable side condition: the domain type has no children -/
+def leafDomain (ts : TypeSystem) (domain : String) : Bool :=
+  match getType ts domain with
+  | .error _ => true
+  | .ok d =>
+    match find? ts d.name with
+    | none => true
+    | some t => t.children.isEmpty
+
+theorem createFeature_eq_leaf (ts : TypeSystem) (domain name range : String)
+    (h : leafDomain ts domain = true) :
+    createFeature ts domain name range = createFeatureLeaf ts domain name range := by
+  unfold createFeature createFeatureLeaf
+  cases hd : getType ts domain with
+  | error e => rfl
+  | ok d =>
+    cases hr : getType ts range with
+    | error e => rfl
+    | ok r =>
+      simp only [bind, Except.bind, pure, Except.pure]
+      cases hf : find? ts d.name with
+      | none => unfold addFeature; rw [hf]
+      | some t =>
+        unfold leafDomain at h
+        rw [hd] at h
+        simp only [hf] at h
+        rw [addFeature_leaf hf (List.isEmpty_iff.mp h)]
+
+theorem ok_eq_getD {α} [Inhabited α] {r : R α} {a : α} (h : r = .ok a) : a = r.toOption.getD default := by
+  rw [h]; rfl
+
+theorem bind_congr_ok {α β} (r : R α) (f g : α → R β) (h : ∀ a, r = .ok a → f a = g a) :
+    (r >>= f) = (r >>= g) := by
+  cases r with
+  | error e => rfl
+  | ok a => exact h a rfl
+
+/-- a new type with two features (the shape of the test type systems of the properties): the
+    kernel-evaluable construction gives the same type system -/
+theorem createType_createFeature2_leaf (K : Consts) (ts0 : TypeSystem) (n sup d1 f1 r1 d2 f2 r2 : String)
+    (h1 : leafDomain ((createType K ts0 n sup none).toOption.getD default) d1 = true)
+    (h2 : leafDomain ((createFeatureLeaf ((createType K ts0 n sup none).toOption.getD default)
+            d1 f1 r1).toOption.getD default) d2 = true) :
+    (do let ts ← createType K ts0 n sup none
+        let ts ← createFeature ts d1 f1 r1
+        createFeature ts d2 f2 r2) =
+    (do let ts ← createType K ts0 n sup none
+        let ts ← createFeatureLeaf ts d1 f1 r1
+        createFeatureLeaf ts d2 f2 r2) := by
+  refine bind_congr_ok _ _ _ (fun ts1 e1 => ?_)
+  rw [ok_eq_getD e1]
+  rw [createFeature_eq_leaf _ _ _ _ h1]
+  refine bind_congr_ok _ _ _ (fun ts2 e2 => ?_)
+  rw [ok_eq_getD e2]
+  exact createFeature_eq_leaf _ _ _ _ h2
+
 end Cassis.Traverse
